@@ -8,6 +8,9 @@ package main
 // before 5 s of (virtual) time, and the handler keeps reading until a Read reports the deadline.
 
 import (
+	"path/filepath"
+	"os"
+	"errors"
 	"bytes"
 	"fmt"
 	"net"
@@ -18,6 +21,7 @@ import (
 	"time"
 
 	"github.com/refraction-networking/conjure/pkg/core"
+	"github.com/refraction-networking/conjure/pkg/station/geoip"
 	cj "github.com/refraction-networking/conjure/pkg/station/lib"
 	"pgregory.net/rapid"
 	"verif/harness/vconn"
@@ -636,22 +640,45 @@ type c03SeqConn struct {
 	Len    int    `json:"len"`
 	ASN    int    `json:"asn"`
 	NoRegs bool   `json:"noregs"` // probe a phantom without registrations
+	Reload string `json:"reload,omitempty"` // configuration reload (the SIGHUP path, OnReload) before this connection: "" | plain | blocklist-this (the phantom this connection goes to becomes a blocklisted phantom) | blocklist-other | bad-geoip (the new GeoIP files cannot be opened: that part of the reload is abandoned)
 }
 
 type c03SeqCase struct {
 	Conns []c03SeqConn `json:"conns"`
 }
 
-type c03Geo struct{ asn *uint }
+// c03Geo stands in for an opened GeoIP database: like the real one it holds resources, and once it
+// has been closed every lookup fails.
+type c03Geo struct {
+	asn    *uint
+	closed *bool
+}
 
-func (g c03Geo) CC(net.IP) (string, error) { return "US", nil }
-func (g c03Geo) ASN(net.IP) (uint, error)  { return *g.asn, nil }
+func (g c03Geo) CC(net.IP) (string, error) {
+	if g.closed != nil && *g.closed {
+		return "", errors.New("cannot call Lookup on a closed database")
+	}
+	return "US", nil
+}
+func (g c03Geo) ASN(net.IP) (uint, error) {
+	if g.closed != nil && *g.closed {
+		return 0, errors.New("cannot call Lookup on a closed database")
+	}
+	return *g.asn, nil
+}
+func (g c03Geo) Close() error {
+	if g.closed != nil {
+		*g.closed = true
+	}
+	return nil
+}
 
 func c03SeqRun(e *aEnv, c c03SeqCase) (key, msg string, classes []string) {
 	cj.VerifResetRegistry(e.rm)
 	e.cm = newConnManager(nil)
 	asn := uint(64512)
-	e.rm.GeoIP = c03Geo{asn: &asn}
+	e.rm.GeoIP = c03Geo{asn: &asn, closed: new(bool)}
+	defer e.rm.OnReload(c03ReloadConf(nil, "")) // leave the shared environment without a phantom blocklist
 	for _, v6 := range []bool{false, true} {
 		for tt := 0; tt < 3; tt++ {
 			reg, err := e.aMakeReg(aRegSpec{Secret: tt, TT: tt, PrefixID: 1, Phantom: 0, V6: v6})
@@ -701,6 +728,36 @@ func c03SeqRun(e *aEnv, c c03SeqCase) (key, msg string, classes []string) {
 		if sc.NoRegs {
 			ph = aPhantom(7, sc.V6)
 		}
+		if sc.Reload != "" {
+			// what main.go does on SIGHUP after the new configuration parsed
+			var list []string
+			switch sc.Reload {
+			case "blocklist-this":
+				if sc.V6 {
+					list = []string{"2001:db8:9::/48", ph.String() + "/128"}
+				} else {
+					list = []string{"10.99.0.0/16", ph.String() + "/32"}
+				}
+			case "blocklist-other":
+				list = []string{"10.99.0.0/16", "2001:db8:9::/48"}
+			}
+			badGeo := ""
+			if sc.Reload == "bad-geoip" {
+				badGeo = filepath.Join(e.tb.TempDir(), "unusable.mmdb")
+				if err := os.WriteFile(badGeo, []byte("this is not a MaxMind database"), 0o644); err != nil {
+					return "harness", err.Error(), classes
+				}
+			}
+			old := e.rm.GeoIP
+			e.rm.OnReload(c03ReloadConf(list, badGeo))
+			if sc.Reload != "bad-geoip" {
+				// the reload opened the (unchanged) databases anew
+				e.rm.GeoIP = c03Geo{asn: &asn, closed: new(bool)}
+			} else if e.rm.GeoIP != old {
+				return "harness", "a reload whose GeoIP files cannot be opened replaced the GeoIP database", classes
+			}
+			classes = append(classes, "reload:"+sc.Reload)
+		}
 		ok, pan, dur := e.aRunHandler(conn, ph, 12*time.Second) // no real-time wait exists on these paths
 		classes = append(classes, "conn:"+sc.Kind)
 		if sc.Reset != "" {
@@ -730,10 +787,23 @@ func c03SeqRun(e *aEnv, c c03SeqCase) (key, msg string, classes []string) {
 	return "", "", classes
 }
 
+// c03ReloadConf builds the configuration a reload hands to OnReload (blocklists parsed, as main.go
+// does before calling it).
+func c03ReloadConf(phantomBlocklist []string, geoipFile string) *cj.RegConfig {
+	conf := &cj.RegConfig{EnableIPv4: true, EnableIPv6: true, PhantomBlocklist: phantomBlocklist}
+	if geoipFile != "" {
+		conf.DBConfig = &geoip.DBConfig{CCDBPath: geoipFile, ASNDBPath: geoipFile}
+	}
+	if err := conf.ParseBlocklists(); err != nil {
+		panic(err)
+	}
+	return conf
+}
+
 func TestVerif_C03_sequence(t *testing.T) {
-	rec := vh.NewRec("C03", "sequence", "rapid-generated sequences of 2-6 connections on one connection manager: peers that close at once / after data / reset / stay silent, probes, IPv4 and IPv6, two source ASNs, phantoms with and without registrations, statistics epoch resets before / during / after a connection; every connection is judged (probes and silent peers by the C03 oracle, closing peers by 'returns, writes nothing'); non-trivial = a sequence with a statistics reset and a later probe; distinct by case")
+	rec := vh.NewRec("C03", "sequence", "rapid-generated sequences of 2-6 connections on one connection manager: peers that close at once / after data / reset / stay silent, probes, IPv4 and IPv6, two source ASNs, phantoms with and without registrations, statistics epoch resets before / during / after a connection, configuration reloads through OnReload in between (plain; the probed phantom becomes a blocklisted phantom; GeoIP files that cannot be opened, against a GeoIP stand-in that fails every lookup once closed); every connection is judged (probes and silent peers by the C03 oracle, closing peers by 'returns, writes nothing'); non-trivial = a sequence with a statistics reset and a later probe; distinct by case")
 	defer rec.Flush()
-	rec.Require("stats-reset:during", "conn:eof-at-once", "conn:probe")
+	rec.Require("stats-reset:during", "conn:eof-at-once", "conn:probe", "reload:blocklist-this", "reload:bad-geoip")
 	defer aSilenceStdout()()
 	e := aNewEnv(t)
 	run := func(tt vh.Fataler, c c03SeqCase) {
@@ -774,6 +844,7 @@ func TestVerif_C03_sequence(t *testing.T) {
 				Len:    rapid.SampledFrom([]int{1, 31, 32, 64, 100, 5000}).Draw(rt, "len"),
 				ASN:    rapid.IntRange(0, 1).Draw(rt, "asn"),
 				NoRegs: rapid.IntRange(0, 3).Draw(rt, "noregs") == 0,
+				Reload: rapid.SampledFrom([]string{"", "", "", "", "plain", "blocklist-this", "blocklist-this", "blocklist-other", "bad-geoip", "bad-geoip"}).Draw(rt, "reload"),
 			})
 		}
 		run(rt, c)
